@@ -14,13 +14,14 @@ Status on the current tree:
   * sets / frozensets: REPAIRED (D6, fix 847ae56e: elements ordered by their digests).  `C08_order_indep` needs nothing for
     sets any more; `C08_regression_set_of_sets` / `C08_regression_unorderable_set` are the former witnesses, now passing;
     `C08_old_sorted_by_value` documents what the OLD algorithm (`sortedByValue`) did to them;
-  * dict keys / attribute names are still ordered with Python's `<` (`sorted(mapping)`): `C08_order_indep` keeps the
-    decidable hypothesis `sortable` for them (keys of mutually unorderable classes raise TypeError: finding D68);
+  * dict keys / attribute names: REPAIRED (D68, fix e8ebe74c: items ordered by the byte representation of their keys).
+    `sortable` is now mere well-formedness (the keys of one dict are pairwise different) — true of every Python value;
+    `C08_regression_unorderable_keys` is the former witness, `C08_old_keys_sorted_by_value` documents the old order;
   * a back reference is answered with the one-byte placeholder (D66)  →  `C08_context_free` needs `UniqueIds`
     (tree / DAG values); witness `C08_witness_cycle`;
   * PEP 585 aliases: REPAIRED (D65, fix 4172742a), regression cases in the harness.  Lambdas lose their content before any
-    byte is produced (D67): the model's value grammar represents what the serializer *sees* (an empty chunk list), so this
-    one is witnessed on the implementation by the harness, not by a Lean theorem.
+    byte was produced: REPAIRED (D67, fix 0b7c1de8: a function whose source statement is not its own `def` is hashed
+    through its code object, `FuncBody.code`), regression cases in the harness.
 -/
 namespace PydraModel.Hash
 open PydraModel.Gen
@@ -65,8 +66,8 @@ theorem C08_sorted_perm {α : Type} (lt : α → α → Except Err Bool) (ltb : 
 
 /-- Two values with the same type and content — whatever the iteration order of their sets, the insertion order of
     their dicts, the identity of their parts — get the same hash, and hashing them does not fail.  FULL for sets and
-    frozensets (ordered by digest); the hypothesis `sortable v` (decidable) only concerns dict keys and attribute names,
-    which `sorted(mapping)` still compares with Python's `<`. -/
+    frozensets (ordered by digest) and for dicts / objects (items ordered by the byte representation of their keys); the
+    decidable hypothesis `sortable v` is well-formedness only: the keys of one dict are pairwise different. -/
 theorem C08_order_indep (H : Bytes → Bytes) (v w : PyVal) (he : Equiv v w) (hs : sortable v = true) :
     ∃ h, hashAlone H v = .ok h ∧ hashAlone H w = .ok h := by
   obtain ⟨p, q, h1, h2, h3⟩ := order_indep_val H v w he hs
@@ -161,6 +162,22 @@ theorem C08_old_sorted_by_value :
     sortedByValue [sA, sB] = .ok [sA, sB] ∧ sortedByValue [sB, sA] = .ok [sB, sA]
     ∧ sortedByValue [.sc (.str [97]), .sc .none] = .error .typeError := by
   refine ⟨rfl, rfl, rfl⟩
+
+/-- REGRESSION (D68 repaired, fix e8ebe74c): a dict whose keys Python's `<` cannot compare (`{1: 2, 'a': 3}`) is hashed
+    without error, in both insertion orders to the same value. -/
+theorem C08_regression_unorderable_keys (H : Bytes → Bytes) :
+    ∃ h, hashAlone H (.dict 1 [(.int 1, .sc (.int 2)), (.str [97], .sc (.int 3))]) = .ok h
+      ∧ hashAlone H (.dict 2 [(.str [97], .sc (.int 3)), (.int 1, .sc (.int 2))]) = .ok h := by
+  apply C08_order_indep H _ _ _ (by decide)
+  simp only [Equiv]
+  exact ⟨[(.int 1, .sc (.int 2)), (.str [97], .sc (.int 3))], List.Perm.swap _ _ _, by simp [EquivItems, Equiv]⟩
+
+/-- DOCUMENTATION of the OLD key order (`sorted(mapping)` on the keys, before fix e8ebe74c): TypeError on `{1: …, 'a': …}`;
+    and the NEW order is by representation, so `'b'` (`str:1:b`) now precedes `'aa'` (`str:2:aa`). -/
+theorem C08_old_keys_sorted_by_value :
+    sortedKeysByValue [.int 1, .str [97]] = .error .typeError
+    ∧ (sortItems [(Scalar.str [97, 97], ()), (Scalar.str [98], ())]).map (·.1) = [.str [98], .str [97, 97]] := by
+  exact ⟨rfl, by decide⟩
 
 /-- `a = [b, 1]`, `b = [a]` seen from `a` (ids 1 and 2). -/
 def cycA : PyVal := .seq 1 .list [.seq 2 .list [.ref 1], .sc (.int 1)]
